@@ -401,6 +401,90 @@ print(p, ref); sys.exit(0 if (torch.allclose(p, ref, atol=1e-6) and abs(float(p.
     return guarded(PROP, task, body)
 
 
+
+def batched_task(kind, kw, burn_in, n_ind=2, n_vis=2):
+    """'All parameters are updated together from the pre-step state, never one from another's new value': the real
+    update_parameters on a symbolic state vs every parameter's real rule evaluated on an untouched clone of the pre-step
+    state (covers the mixture model, whose rules read state-derived responsibilities in every phase)."""
+    task = f"batched[{cfg_name(kind, kw)},burn_in={burn_in},n={n_ind},v={n_vis}]"
+
+    def body():
+        m = build_model(kind, **kw)
+        rec = Recorder(PROP, task, [McmcSaemCompatibleModel.update_parameters.__func__, ModelParameter.compute_update])
+        hold = {}
+
+        def run():
+            s, ins = populate(m, n_ind, n_vis)
+            mk = ins["mask"].sym
+            for k in range(m.dimension):
+                T.assume(z3.Or(*[mk[i, j, k] for i in range(n_ind) for j in range(n_vis)]))
+            real = McmcSaemCompatibleModel.compute_sufficient_statistics.__func__(type(m), s)
+            S = {k: _fresh_like(k, v) for k, v in real.items()}
+            clone = s.clone(disable_auto_fork=True)
+            hold.update(ins=ins, S=S, phase="rules")
+            # every rule on the untouched clone (a refusal here is a legitimate refusal of the step: see the mstep tasks)
+            expd = {name: var.compute_update(state=clone, suff_stats=S, burn_in=burn_in) for name, var in by_type(m.dag, ModelParameter).items()}
+            hold.update(phase="update")
+            type(m).update_parameters(s, S, burn_in=burn_in)
+            return expd, {p_: s[p_] for p_ in expd}
+
+        def rp(model):
+            ins, S = hold["ins"], hold["S"]
+            src = replay_prologue(kind, kw, ins, model)
+            src += "S = {}\n"
+            for k, v in S.items():
+                lit = tensor_literal(v.value if isinstance(v, WeightedTensor) else v, model)
+                src += f"S[{k!r}] = WeightedTensor({lit}, s['y'].weight)\n" if isinstance(v, WeightedTensor) else f"S[{k!r}] = {lit}\n"
+            src += f"""
+from leaspy.variables.specs import ModelParameter
+from leaspy.exceptions import LeaspyConvergenceError
+BURN = {burn_in!r}
+for k in list(m.dag): s[k]
+clone = s.clone(disable_auto_fork=True)
+try:
+    expd = {{n: v.compute_update(state=clone, suff_stats=S, burn_in=BURN) for n, v in m.dag.sorted_variables_by_type[ModelParameter].items()}}
+except LeaspyConvergenceError as e:
+    print('the step is refused at these values:', str(e)[:80]); sys.exit(0)
+type(m).update_parameters(s, S, burn_in=BURN)
+bad = [n for n, e in expd.items() if not torch.allclose(s[n].double().reshape(-1), e.double().reshape(-1), rtol=1e-6, atol=1e-9, equal_nan=True)]
+for n in bad: print('parameter', n, 'after the step:', s[n], 'its rule on the pre-step state:', expd[n])
+sys.exit(1 if bad else 0)
+"""
+            return src
+
+        n_ref = 0
+        for c, res in st.explore(run, "R"):
+            T.ctx().congruence = "pruned"
+            rec.end_path(c)
+            if isinstance(res, Exception):
+                if not isinstance(res, LeaspyConvergenceError):
+                    raise res
+                if hold.get("phase") == "rules":
+                    n_ref += 1
+                    continue
+                # the rules accept the pre-step state but the step itself refuses
+                rec.prove(f"refusal-only-in-step#{rec.paths}", z3.BoolVal(False), replay=rp, key="C04:batched:refusal", what=f"update_parameters refuses ({str(res)[:80]}) although every rule accepts the pre-step state")
+                continue
+            expd, post = res
+            for pname in expd:
+                e, g = st.to_terms(expd[pname]).reshape(-1), st.to_terms(post[pname]).reshape(-1)
+                rec.obligations += 1
+                if len(e) != len(g):
+                    rec.violation_from_script(f"{pname}:size", "C04:batched", rp(_Zero()), f"{pname}: {len(g)} entries stored for {len(e)} computed")
+                    continue
+                rec.discharged += 1
+                for i, (a, b) in enumerate(zip(g, e)):
+                    rec.prove(f"{pname}[{i}]", a == b, replay=rp, key="C04:batched", timeout_ms=60000,
+                              what=f"{pname} after the step is not its rule evaluated on the pre-step state (updated from another parameter's new value)")
+            if rec.paths == 1:
+                rec.twin("path")
+        rec.notes.append(f"{n_ref} paths end in a refusal by a rule (collapsed dispersion): not a step")
+        rec.sample({"model": cfg_name(kind, kw), "burn_in": burn_in, "parameters": list(by_type(m.dag, ModelParameter))})
+        return rec.result()
+
+    return guarded(PROP, task, body)
+
+
 class _Zero:
     def eval(self, t, model_completion=True):
         return z3.RealVal(0) if t.sort() == z3.RealSort() else z3.BoolVal(True)
@@ -409,5 +493,13 @@ class _Zero:
 _tasks_c04 = tasks
 
 
+MIX = ("mixture_logistic", dict(features=["a", "b"], source_dimension=1, n_clusters=2, obs_models="gaussian-diagonal"))
+
+
 def tasks(tier, seed=0):
-    return _tasks_c04(tier, seed) + [("mixture_probs_task", dict(n_ind=2, n_clusters=2))] + ([("mixture_probs_task", dict(n_ind=3, n_clusters=2)), ("mixture_probs_task", dict(n_ind=2, n_clusters=3))] if tier == "thorough" else [])
+    extra = [("batched_task", dict(kind=MIX[0], kw=MIX[1], burn_in=b)) for b in (True, False)]
+    extra += [("batched_task", dict(kind="logistic", kw=dict(features=["a", "b"], source_dimension=1, obs_models="gaussian-diagonal"), burn_in=False))]
+    if tier == "thorough":
+        extra += [("batched_task", dict(kind=MIX[0], kw=dict(MIX[1], source_dimension=0, obs_models="gaussian-scalar"), burn_in=b)) for b in (True, False)]
+        extra += [("batched_task", dict(kind=MIX[0], kw=dict(MIX[1], n_clusters=3), burn_in=True))]
+    return extra + _tasks_c04(tier, seed) + [("mixture_probs_task", dict(n_ind=2, n_clusters=2))] + ([("mixture_probs_task", dict(n_ind=3, n_clusters=2)), ("mixture_probs_task", dict(n_ind=2, n_clusters=3))] if tier == "thorough" else [])
